@@ -75,28 +75,32 @@ def isolation_violations(rec):
 
 
 def rerun_overwrite(name, sync_val, o):
-    """Classifier for the known finding: in the failing step the async runner lets a sibling of
-    the failing node finish, and that sibling writes the same value name again (a node re-running
-    on the edge value after a first run on a fallback, or another exclusive producer of the name
-    that started early under an undecided default-open gate); the sync runner stopped at the
-    failing node and still shows the earlier value."""
-    last_step = max((i for i, e in enumerate(o.rec.ev) if e[0] == "step" and e[1] == _top_run(o.rec)), default=None)
-    if last_step is None:
+    """Classifier for the known finding: the async result's value of this name was written by a
+    node of the FAILING step that is scheduled after the failing node (the sync runner, which stops
+    at the failing node, never ran it) and it overwrote a value that already existed: a node
+    re-running on the edge value after a first run on a fallback, or another exclusive producer of
+    the name running early under an undecided default-open gate."""
+    top = _top_run(o.rec)
+    steps = [(i, e) for i, e in enumerate(o.rec.ev) if e[0] == "step" and e[1] == top]
+    if not steps:
         return False
+    last_i, last = steps[-1]
+    order = list(last[3])
     cur = o.values.get(name)
-
-    def produced_at(val):
-        idx = []
-        for i, e in enumerate(o.rec.ev):
-            if e[0] == "exit":
-                ts = []
-                terms_in(e[2], ts)
-                if e[2] == val or val in ts:
-                    idx.append(i)
-        return idx
-
-    a, b = produced_at(sync_val), produced_at(cur)
-    return bool(a) and bool(b) and min(a) < last_step and max(b) > last_step and sync_val != cur
+    if cur == sync_val:
+        return False
+    failing = [e[1].rsplit("/", 1)[-1] for e in o.rec.ev[last_i:] if e[0] == "raise"]
+    writers = []
+    for e in o.rec.ev[last_i:]:
+        if e[0] == "exit":
+            ts = []
+            terms_in(e[2], ts)
+            if e[2] == cur or cur in ts:
+                writers.append(e[1].rsplit("/", 1)[-1])
+    if not failing or not writers:
+        return False
+    fpos = min(order.index(f) for f in failing if f in order) if any(f in order for f in failing) else None
+    return fpos is not None and any(w in order and order.index(w) > fpos for w in writers)
 
 
 def _top_run(rec):
